@@ -304,7 +304,7 @@ def build(ctx, kinds, flavor, ts_a, ts_g, d, emitter='null', parallel=None,
           engine_cls=LoggedEngine, extra_processes=None, extra_topology=None,
           initial_state=None, actor_last=False, issuer='process',
           extra_steps=None, extra_flow=None, first_flavor=None,
-          via_composite=False):
+          via_composite=False, extra_first=False):
     LOG.clear()
     CTX.clear()
     CREATED.clear()
@@ -328,8 +328,13 @@ def build(ctx, kinds, flavor, ts_a, ts_g, d, emitter='null', parallel=None,
     topology = {'actor': {'loc1': ('loc1',), 'loc2': ('loc2',)},
                 'loc1': {'a1': a['topology']}}
     if extra_processes:
-        processes.update(extra_processes)
-        topology.update(extra_topology)
+        if extra_first:
+            # the extra processes are declared before the actor and agents
+            processes = dict(extra_processes, **processes)
+            topology = dict(extra_topology, **topology)
+        else:
+            processes.update(extra_processes)
+            topology.update(extra_topology)
     init = {'loc2': {'b1': {'s': {'x': 5}}}}
     if initial_state:
         init.update(initial_state)
@@ -353,7 +358,7 @@ def build(ctx, kinds, flavor, ts_a, ts_g, d, emitter='null', parallel=None,
 def _build_step_issuer(a, ops, issuer, emitter, engine_cls, initial_state,
                        extra_processes=None, extra_topology=None,
                        extra_steps=None, extra_flow=None, first_flavor=None,
-          via_composite=False):
+          via_composite=False, extra_first=False):
     """The structural updates are issued by a step during a step phase: a
     legacy deriver (listed under processes, runs before all flow steps) or a
     flow step without dependencies (first layer)."""
